@@ -557,7 +557,7 @@ func (w *hWorld) trial(fs *hFileSet) {
 		return false
 	}
 
-	kind := T.Draw(10, "trial.kind")
+	kind := T.Draw(11, "trial.kind")
 	w.k.Count(fmt.Sprintf("trial:%d", kind))
 
 	switch kind {
@@ -736,6 +736,51 @@ func (w *hWorld) trial(fs *hFileSet) {
 		w.nontrivial = true
 		w.verdict(p, fmt.Sprintf("alt-size-limit %s served=%d limit=%d decompressed=%d", role, len(big), lim, d), w.anchor, ops, err, mustFail, !mustFail)
 
+	case 10: // exactly one reference is longer than the maximum CAS URI length (every reference has its own check)
+		refs := present[1:]
+		if len(refs) == 0 {
+			return
+		}
+
+		role := refs[T.Draw(len(refs), "longuri.role")]
+		extra := 1 + T.Draw(3, "longuri.extra")
+		limit := 43 + T.Draw(extra+1, "longuri.limit") // 43 .. 43+extra
+		longAddr := w.uris[role] + strings.Repeat("x", extra)
+		w.cas.Files[longAddr] = w.cas.Files[w.uris[role]]
+
+		f2 := fs.clone()
+
+		switch role {
+		case "coreProof":
+			f2.core["coreProofFileUri"] = longAddr
+		case "provIndex":
+			f2.core["provisionalIndexFileUri"] = longAddr
+		case "provProof":
+			f2.provIndex["provisionalProofFileUri"] = longAddr
+		default:
+			chunks, _ := f2.provIndex["chunks"].([]interface{})
+			cm, _ := chunks[0].(map[string]interface{})
+			cm["chunkFileUri"] = longAddr
+		}
+
+		// re-link only the parents of the re-addressed file
+		anchor := ""
+
+		switch role {
+		case "coreProof", "provIndex":
+			anchor = fmt.Sprintf("%d.%s", f2.count, w.put(f2.core))
+		default:
+			f2.core["provisionalIndexFileUri"] = w.put(f2.provIndex)
+			anchor = fmt.Sprintf("%d.%s", f2.count, w.put(f2.core))
+		}
+
+		p.MaxCasURILength = uint(limit)
+		ops, err := w.read(p, anchor, nil)
+		w.k.Count("fault:one-long-uri")
+		w.nontrivial = true
+		mustFail := 43+extra > limit
+		w.verdict(p, fmt.Sprintf("long-uri %s length=%d limit=%d", role, 43+extra, limit), anchor, ops, err, mustFail, !mustFail)
+
 	case 5, 6: // Byzantine, well-formed file sets whose verdict is known by construction
 		w.structural(fs)
 
@@ -782,9 +827,16 @@ func (w *hWorld) structural(orig *hFileSet) {
 		{"missing-provisional-proof-reference", w.nUpdate > 0, func() { delete(fs.provIndex, "provisionalProofFileUri") }},
 		{"superfluous-provisional-proof-reference", w.nUpdate == 0 && fs.provIndex != nil, func() { fs.provIndex["provisionalProofFileUri"] = w.uris["chunk"] }},
 		{"missing-chunk-reference", fs.provIndex != nil, func() { fs.provIndex["chunks"] = []interface{}{} }},
-		{"core-proof-recover-count", w.nRecover > 0, func() { dropLast(fs.coreProof, "operations", "recover"); fs.count-- }},
-		{"core-proof-deactivate-count", w.nDeact > 0, func() { dupLast(fs.coreProof, "operations", "deactivate"); fs.count++ }},
-		{"provisional-proof-update-count", w.nUpdate > 0, func() { dropLast(fs.provProof, "operations", "update"); fs.count-- }},
+		// counts that disagree between index and proof files, in both directions; the anchor count is set to what
+		// a reader trusting the index (or, alternatively, the proof) would return
+		{"core-proof-recover-count-less", w.nRecover > 0, func() { dropLast(fs.coreProof, "operations", "recover"); fs.count-- }},
+		{"core-proof-recover-count-more", w.nRecover > 0, func() { dupLast(fs.coreProof, "operations", "recover") }},
+		{"core-proof-deactivate-count-more", w.nDeact > 0, func() { dupLast(fs.coreProof, "operations", "deactivate"); fs.count++ }},
+		{"core-proof-deactivate-count-more-same-anchor-count", w.nDeact > 0, func() { dupLast(fs.coreProof, "operations", "deactivate") }},
+		{"core-proof-deactivate-count-less", w.nDeact > 1, func() { dropLast(fs.coreProof, "operations", "deactivate") }},
+		{"provisional-proof-update-count-less", w.nUpdate > 0, func() { dropLast(fs.provProof, "operations", "update"); fs.count-- }},
+		{"provisional-proof-update-count-more", w.nUpdate > 0, func() { dupLast(fs.provProof, "operations", "update") }},
+		{"index-recover-count-less", w.nRecover > 1, func() { dropLast(fs.core, "operations", "recover"); fs.count-- }},
 		{"chunk-delta-count-less", fs.ch != nil && len(list(fs.ch, "deltas")) > 0, func() { dropLast(fs.ch, "deltas"); fs.count-- }},
 		{"chunk-delta-count-more", fs.ch != nil && len(list(fs.ch, "deltas")) > 0, func() { dupLast(fs.ch, "deltas"); fs.count++ }},
 		{"index-update-count", w.nUpdate > 0, func() { dupLast(fs.provIndex, "operations", "update"); fs.count++ }},
